@@ -21,6 +21,8 @@ import (
 type c03Scenario struct {
 	History gen.History `json:"history"`
 	UpTo    int         `json:"up_to,omitempty"`
+	Forest  *fScenario  `json:"forest,omitempty"` // suite 'undo': ops incl. undo; the claim is judged after op OpIndex
+	OpIndex int         `json:"op_index,omitempty"`
 	Cfg     *InstCfg    `json:"cfg,omitempty"`
 	Entry   string      `json:"entry,omitempty"`
 	Claim   claimJSON   `json:"claim"`
@@ -33,13 +35,14 @@ type c03Params struct {
 	L2Big    int // max proof length for two targets when N == MaxN (keeps quick quick)
 	Mut      int // seeded histories for structured mutation
 	PerState int
+	Undo     int // seeded block/undo/remember/prune interleavings
 }
 
 func c03P(tier string) c03Params {
 	if tier == "thorough" {
-		return c03Params{MaxN: 7, L1: 4, L2: 2, L2Big: 2, Mut: 60000, PerState: 60}
+		return c03Params{MaxN: 7, L1: 4, L2: 2, L2Big: 2, Mut: 60000, PerState: 60, Undo: 40000}
 	}
-	return c03Params{MaxN: 7, L1: 3, L2: 2, L2Big: 1, Mut: 1500, PerState: 40}
+	return c03Params{MaxN: 7, L1: 3, L2: 2, L2Big: 1, Mut: 1500, PerState: 40, Undo: 1200}
 }
 
 // alphaCase is one (state, first target) cell of the exhaustive alphabet.
@@ -83,18 +86,22 @@ func init() {
 		Level: "exploration",
 		Rule: "suite 'alpha' (exhaustive): every forest of 1..7 leaves with every alive pattern; every claim of one or two targets over all positions 0..2^(rows+1)+2 (so duplicates, nested pairs, absent and out-of-forest positions occur), each hash from {true hash at the target, hash of its sibling position, each non-zero root hash, one fresh value}, " +
 			"every proof up to the tier's length over {every node hash, one fresh value, the zero hash}; handed to Verify and Pollard.Verify. Suite 'mut': seeded histories; at each state structured mutants of honest proofs (swap/replace/duplicate/nest targets, swap/replace hashes, flip/drop/insert/duplicate/permute proof hashes) and alphabet claims, " +
-			"handed to Verify, Pollard.Verify, MapPollard.Verify (full/partial, several TotalRows) and MapPollard.VerifyPartialProof (with the claim's proof hashes and with the true hashes at the positions GetMissingPositions reports). An evaluation = one verifier call. " +
+			"handed to Verify, Pollard.Verify, MapPollard.Verify (full/partial, several TotalRows) and MapPollard.VerifyPartialProof (with the claim's proof hashes and with the true hashes at the positions GetMissingPositions reports). " +
+			"Suite 'undo': interleavings of blocks, Undo (to any depth), Verify(remember), Ingest and Prune; after every operation the same claim generators run, plus honest claims of EARLIER states (true before an undo or a block, possibly false now). An evaluation = one verifier call. " +
 			"Refuted by an accepted claim (all hashes non-zero) for which the reference model has no node at some claimed position or a node with a different hash. Non-trivial = accepted claim, or rejected claim that names at least one true (hash,position) pair; distinct = distinct (leaf count, alive pattern, targets, hash classes, proof length).",
 		Assumptions: []string{"SHA-512/256 collision freedom", "reference model correct", "claims containing a zero target hash are outside the statement and are not judged"},
 		MinDistinct: 1000,
 		Plan: func(tier string) []core.Suite {
 			p := c03P(tier)
-			return []core.Suite{{Name: "alpha", N: len(alphaCases(p.MaxN)), Exhaustive: true}, {Name: "mut", N: p.Mut}}
+			return []core.Suite{{Name: "alpha", N: len(alphaCases(p.MaxN)), Exhaustive: true}, {Name: "mut", N: p.Mut}, {Name: "undo", N: p.Undo}}
 		},
 		Run: func(c *core.Ctx) {
-			if c.Suite == "alpha" {
+			switch c.Suite {
+			case "alpha":
 				c03Alpha(c)
-			} else {
+			case "undo":
+				c03Undo(c)
+			default:
 				c03Mut(c)
 			}
 		},
@@ -428,10 +435,35 @@ func c03Mut(c *core.Ctx) {
 }
 
 func c03State(c *core.Ctx, w *World, f *rm.Forest, h gen.History, upTo int, per int) {
-	g := newHostileGen(c.Rng, f, f.N, f.Roots, false, h.Tag)
+	c03StateX(c, w, f, h.Tag, per, nil, func(cfg *InstCfg, entry string, cl claim) any {
+		return c03Scenario{History: h, UpTo: upTo, Cfg: cfg, Entry: entry, Claim: cl.JSON()}
+	})
+}
+
+// c03StateX judges per generated claims (and honest claims drawn from the
+// earlier forests in stale) against every verifier of w in state f.
+func c03StateX(c *core.Ctx, w *World, f *rm.Forest, tag uint64, per int, stale []*rm.Forest, mkScn func(cfg *InstCfg, entry string, cl claim) any) {
+	g := newHostileGen(c.Rng, f, f.N, f.Roots, false, tag)
 	vs := c03Verifiers(w)
-	for i := 0; i < per; i++ {
-		cl := g.next()
+	var staleGens []*hostileGen
+	for _, sf := range stale {
+		if len(sf.Nodes) > 0 {
+			staleGens = append(staleGens, newHostileGen(c.Rng, sf, sf.N, sf.Roots, false, tag))
+		}
+	}
+	for i := 0; i < per+3*len(staleGens); i++ {
+		var cl claim
+		if i >= per {
+			sc, ok := staleGens[(i-per)%len(staleGens)].honest()
+			if !ok || hasZero(sc.Hashes) {
+				continue
+			}
+			cl = sc
+			cl.Kind = "honest-in-an-earlier-state"
+			c.Count("claims_from_earlier_states", 1)
+		} else {
+			cl = g.next()
+		}
 		if i%7 == 6 && len(cl.Proof) > 0 {
 			// a zero proof hash (stands for a deleted sibling in the library's encoding)
 			cl.Proof[c.Rng.Intn(len(cl.Proof))] = rm.Zero
@@ -449,9 +481,7 @@ func c03State(c *core.Ctx, w *World, f *rm.Forest, h gen.History, upTo int, per 
 				cfg = &cc
 			}
 			set := func(cl claim) func() {
-				return func() {
-					c.SetScenario(c03Scenario{History: h, UpTo: upTo, Cfg: cfg, Entry: v.site, Claim: cl.JSON()})
-				}
+				return func() { c.SetScenario(mkScn(cfg, v.site, cl)) }
 			}
 			acc := c03Judge(c, f, v, cl, set(cl))
 			if acc {
@@ -495,6 +525,57 @@ func c03State(c *core.Ctx, w *World, f *rm.Forest, h gen.History, upTo int, per 
 	}
 }
 
+// c03Undo: claims against forests that went through undo / remember / prune.
+func c03Undo(c *core.Ctx) {
+	p := c03P(c.Tier)
+	prof := gen.Tiny
+	if c.Index%3 == 0 {
+		prof = gen.Small
+	}
+	prof.RememberMode = 1
+	tag := uint64(c.Seed)<<32 | uint64(c.Index) | 1<<56
+	cfgs := []InstCfg{{Kind: "pollard"}, {"mapfull", []uint8{0, 3, 63}[c.Index%3]}, {"mappartial", []uint8{63, 0, 2}[c.Index%3]}}
+	s := genForestScenario(c.Rng, tag, cfgs, fGenOpts{Profile: prof, Rounds: 2 + c.Rng.Intn(2), Undo: true, PartialOps: true, ForceEmptyRootOverwrite: c.Index%4 == 0})
+	s.FromRootsAt = -1
+	c03UndoRun(c, s, -1, nil, p.PerState/2)
+}
+
+func c03UndoRun(c *core.Ctx, s fScenario, onlyOp int, only *c03Scenario, per int) {
+	var earlier []*rm.Forest
+	runForest(c, s, func(site, clause, trigger, detail string) { c.Violate(site, "setup:"+clause, trigger, detail) }, func(st *fState) {
+		f := st.F
+		defer func() {
+			earlier = append(earlier, f)
+			if len(earlier) > 3 {
+				earlier = earlier[1:]
+			}
+		}()
+		if only != nil {
+			if st.OpIndex != onlyOp {
+				return
+			}
+			cl := only.Claim.Claim()
+			for _, v := range c03Verifiers(st.W) {
+				if only.Entry != "" && v.site != only.Entry {
+					continue
+				}
+				c03Judge(c, f, v, cl, func() {})
+			}
+			return
+		}
+		if len(f.Nodes) == 0 {
+			return
+		}
+		if st.Op.Kind == "undo" {
+			c.Count("states_after_undo", 1)
+		}
+		oi := st.OpIndex
+		c03StateX(c, st.W, f, s.Tag, per, earlier, func(cfg *InstCfg, entry string, cl claim) any {
+			return c03Scenario{Forest: &s, OpIndex: oi, Cfg: cfg, Entry: entry, Claim: cl.JSON()}
+		})
+	})
+}
+
 func c03Replay(c *core.Ctx, raw json.RawMessage) {
 	var s c03Scenario
 	if err := json.Unmarshal(raw, &s); err != nil {
@@ -502,6 +583,10 @@ func c03Replay(c *core.Ctx, raw json.RawMessage) {
 		return
 	}
 	c.SetScenario(s)
+	if s.Forest != nil {
+		c03UndoRun(c, *s.Forest, s.OpIndex, &s, 0)
+		return
+	}
 	cfgs := c04Cfgs(0)
 	if s.Cfg != nil {
 		cfgs = []InstCfg{*s.Cfg}
